@@ -28,6 +28,8 @@ QUICK = [
     _k('coarse_contract', opt='coarse', kind='contract', T=4),
     _k('coarse_contract_spread', opt='coarse', kind='contract', T=4, ec=True),
     _k('coarse_contract_win_unaligned', opt='coarse', kind='contract', T=5, win=(1, 5)),
+    _k('periodic_ext_transport', opt='periodic', kind='ext_transport', T=6, eff=0.5, costs=True),
+    _k('coarse_ext_transport', opt='coarse', kind='ext_transport', T=4, eff=0.5),
     _k('periodic_storage_duration_window_offset', opt='periodic', kind='storage', T=8, eff=0.75, duration='4h', win=(2, 8)),
     _k('periodic_contract_duration_window_offset', opt='periodic', kind='contract', T=8, ec=True, duration='4h', win=(1, 7)),
     _k('coarse_contract_discounted', opt='coarse', kind='contract', T=4, ec=True, wacc=True, freq='d', coarse='2d'),
@@ -85,6 +87,8 @@ def mk_asset(D, kind, T, tg, nA, nB, opt_kw, ec=False, eff=None, win=None, costs
         return shapes.mk_market(D, 'as', nA, T, 'r', ec=ec, win=win, tg=tg, **opt_kw)
     if kind == 'transport':
         return shapes.mk_transport(D, 'as', nA, nB, eff=eff, costs=costs, win=win, tg=tg, **opt_kw)
+    if kind == 'ext_transport':
+        return shapes.mk_transport(D, 'as', nA, nB, eff=eff, costs=costs, win=win, tg=tg, cls=eao.assets.ExtendedTransport, **opt_kw)
     if kind == 'storage':
         return shapes.mk_storage(D, 'as', nA, eff=eff, costs=('inout' if eff is not None else False), inflow=True, win=win, tg=tg, **opt_kw)
     if kind == 'multicommodity':
@@ -114,7 +118,7 @@ def build_pair(D, opt, kind, T, freq='h', coarse='2h', period='2h', duration=Non
     def pf(okw):
         a = mk_asset(D, kind, T, tg, nA, nB, okw, **kw)
         assets = [shapes.mk_market(D, 'mA', nA, T, 'p'), a]
-        if kind in ('transport', 'multicommodity'):
+        if kind in ('transport', 'ext_transport', 'multicommodity'):
             assets.append(shapes.mk_market(D, 'mB', nB, T, 'q'))
         return eao.portfolio.Portfolio(assets)
     if wacc:
